@@ -1,7 +1,8 @@
 (* Properties/C05.v - HTTP/2 and HTTP/3 codecs agree with their upstream reference codecs.
    Only statements, `exact`, and Print Assumptions.
-   Models: Model/QuicVarint.v (quicvarint/varint.go). *)
+   Models: Model/QuicVarint.v (quicvarint/varint.go), Model/H2Frame.v (internal/http2/frame.go). *)
 From ReqV Require Import Lib.Bytes Lib.BigEndian Model.QuicVarint Proofs.QuicVarintProofs.
+From ReqV Require Import Model.H2Frame Proofs.H2FrameProofs Proofs.H2OrderProofs.
 Open Scope N_scope.
 
 (* ---------- QUIC variable-length integers (RFC 9000 §16) ---------- *)
@@ -68,6 +69,47 @@ Theorem C05_varint_prefix_free : forall s1 s2 x v1 v2,
   x = [] /\ v1 = v2.
 Proof. exact varint_prefix_free. Qed.
 Print Assumptions C05_varint_prefix_free.
+
+(* ---------- HTTP/2 framing (RFC 7540 §4.1, §6; internal/http2/frame.go) ---------- *)
+
+(* the 9-byte header written by startWrite/endWrite is read back by readFrameHeader field for field;
+   the reserved bit of the stream id is dropped *)
+Theorem C05_h2_header_roundtrip : forall len ty fl sid,
+  len < 2 ^ 24 -> ty < 256 -> fl < 256 -> sid < 2 ^ 32 ->
+  length (h2_header_bytes len ty fl sid) = 9%nat /\
+  h2_read_header (h2_header_bytes len ty fl sid) = mkh len ty fl (sid mod 2 ^ 31).
+Proof. exact h2_header_roundtrip. Qed.
+Print Assumptions C05_h2_header_roundtrip.
+
+(* every Write* call (all twelve, every argument tuple within the Go types, AllowIllegalWrites off)
+   that succeeds is parsed back by ReadFrame - in any reader state that admits its length, with any
+   bytes following - to exactly the frame its arguments describe (expected_frame is written from the
+   RFC 7540 field layout, not from the parsers), subject to the frame-order machine; the rest of the
+   input is untouched *)
+Theorem C05_h2_frame_roundtrip : forall c b st rest,
+  wf_wcall c -> run_wcall c = WOk b -> lenN b - 9 <= rs_max st ->
+  read_frame st (b ++ rest) = after_ok st (expected_frame c) rest.
+Proof. exact h2_frame_roundtrip. Qed.
+Print Assumptions C05_h2_frame_roundtrip.
+
+(* checkFrameOrder over ALL sequences of frame headers: a sequence is accepted with no block left
+   open iff it is a concatenation of non-header frames, HEADERS+END_HEADERS, and HEADERS
+   (CONTINUATION on the same stream)* CONTINUATION+END_HEADERS with nothing interleaved *)
+Theorem C05_h2_order_accepts_exactly_contiguous : forall l,
+  header_sids_nonzero l -> (run_order 0 l = Some 0 <-> well_ordered l).
+Proof. exact h2_order_accepts_exactly_contiguous. Qed.
+Print Assumptions C05_h2_order_accepts_exactly_contiguous.
+
+Theorem C05_h2_order_open_block : forall s l, s <> 0 -> run_order 0 l = Some s ->
+  forall h, check_order s h <> None -> is_cont h /\ fh_sid h = s.
+Proof. exact h2_order_open_block. Qed.
+Print Assumptions C05_h2_order_open_block.
+
+(* the side condition of the order theorem is what the payload parsers deliver *)
+Theorem C05_h2_parsed_header_sid_nonzero : forall h p f, parse_frame h p = Ok f ->
+  is_hdr h \/ is_cont h -> fh_sid h <> 0.
+Proof. exact parsed_header_sid_nonzero. Qed.
+Print Assumptions C05_h2_parsed_header_sid_nonzero.
 
 (* non-vacuity *)
 Example C05_nonvacuous :
